@@ -1,4 +1,18 @@
-"""C12 (round 2, agent c12c): the nest audits of biogeme.nests as bi-implications (draft)."""
+"""C12 (round 2, agent c12c): the nest audits of biogeme.nests as bi-implications, for ALL nest structures.
+
+    NestsForNestedLogit.check_intersection   returns (False, msg) IFF two DIFFERENT nests (all pairs a != b, not only consecutive
+                                             ones) share an alternative, or a nest contains an alternative recorded as `alone`
+    Nests.check_union                        returns (True, '') IFF (union of the nests) | alone == set(choice_set); also stated
+                                             element by element: every alternative of the choice set is alone or in a nest, every
+                                             nest alternative and every alone alternative is in the choice set
+    NestsForNestedLogit.check_partition      both
+    Nests.__init__ (+ the two subclasses)    BiogemeError IFF some nest alternative is outside the choice set; otherwise
+                                             mev_alternatives = union of the nests, alone = choice set minus it, every nest named
+
+MODEL: `tuple_of_nests` (a tuple of unknown length) is typed as an immutable list of nest objects (the constructors' old-syntax
+branch that converts plain tuples, `cls(*the_tuple)`, is outside the typed model and stays with the bounded harness).
+Sets are encoded without lambdas (pyvc/libext/c12c_sets.py, specs/c12c_nests.py).
+"""
 from pyvc.contract import contract, field_type
 
 Q = 'biogeme.nests.'
@@ -14,7 +28,34 @@ field_type('Nests', 'mev_alternatives', 'set[int]')
 
 contract(Q + 'OneNestForNestedLogit.intersection', 'C12', modifies=[],
          ensures={'is_intersection': "forall(lambda x: iff(x in result, x in self.list_of_alternatives and "
-                                     "x in other_nest.list_of_alternatives))"})
+                                     "x in other_nest.list_of_alternatives))"},
+         replay='''
+from biogeme.nests import OneNestForNestedLogit
+bad = [(a, b) for a, b in (([1, 2, 3], [3, 4]), ([1, 2], [3]), ([], [1]), ([5, 5, 6], [6, 5]), ([1, 2, 3], [9, 1]))
+       if OneNestForNestedLogit(1.0, a).intersection(OneNestForNestedLogit(1.0, b)) != set(a) & set(b)]
+violated = bool(bad)
+detail = f'pairs of lists whose intersection() is not the set intersection: {bad}'
+''')
+
+REPLAY_NESTS = '''
+import warnings, logging; warnings.simplefilter('ignore'); logging.disable(logging.CRITICAL)
+from biogeme.nests import OneNestForNestedLogit, OneNestForCrossNestedLogit, NestsForNestedLogit, NestsForCrossNestedLogit
+from biogeme.expressions import Numeric
+from biogeme.exceptions import BiogemeError
+def nl(cs, lists):
+    return NestsForNestedLogit(list(cs), tuple(OneNestForNestedLogit(1.5, list(l)) for l in lists))
+def cnl(cs, lists):
+    return NestsForCrossNestedLogit(list(cs), tuple(OneNestForCrossNestedLogit(1.5, {a: Numeric(0.5) for a in l}) for l in lists))
+def share(lists, alone):
+    return any(set(a) & set(alone) for a in lists) or any(set(a) & set(b) for i, a in enumerate(lists) for j, b in enumerate(lists) if i != j)
+def union_ok(cs, lists, alone):
+    return set().union(*[set(l) for l in lists]) | set(alone) == set(cs)
+# (choice set, nests): overlaps between consecutive and NON-consecutive nests, first/last, duplicates inside one nest, empty nests
+SHAPES = [([1, 2, 3, 4], [[1, 2], [3, 4]]), ([1, 2, 3, 4, 5], [[1, 2], [3, 4], [2, 5]]), ([1, 2, 3, 4, 5], [[1, 2], [3, 4], [5, 1]]),
+          ([1, 2, 3], [[1, 2], [2, 3]]), ([1, 2, 3, 4, 5, 6], [[1], [2, 3], [4], [5, 6, 1]]), ([1, 2, 3, 4, 5, 6], [[1], [2, 3], [4], [5, 6, 3]]),
+          ([1, 2, 3], [[1, 1, 2]]), ([1, 2, 3], [[1], [], [2]]), ([1, 2, 3], []), ([1, 2, 3, 4], [[4, 3], [2], [1]]),
+          ([1, 2, 3, 4, 5, 6, 7], [[1, 2], [3], [4], [5], [6, 7, 2]]), ([7, 8, 9], [[7], [8], [9], [7]])]
+'''
 
 N = 'self.tuple_of_nests'
 LST = N + '[%s].list_of_alternatives'
@@ -38,7 +79,24 @@ contract(Q + 'NestsForNestedLogit.check_intersection', 'C12', modifies=[],
              1: {'clauses': {'rows_done_clean':
                              f"forall(lambda a: not {alone('a')} and forall(lambda b: implies(a != b, not {share('a', 'b')}), 0, len({N})), 0, _k)"}},
              2: {'clauses': {'row_clean_so_far': f"forall(lambda b: implies(i != b, not {share('i', 'b')}), 0, _k)",
-                             'not_alone': f"not {alone('i')}"}}})
+                             'not_alone': f"not {alone('i')}"}}},
+         replay=REPLAY_NESTS + '''
+wrong = []
+for cs, lists in SHAPES:
+    try:
+        n = nl(cs, lists)
+    except BiogemeError:
+        continue
+    for alone in (None, {lists[-1][-1]} if lists and lists[-1] else None):
+        if alone is not None:
+            n.alone = alone
+        got = n.check_intersection()[0]
+        want = not share(lists, n.alone)
+        if got != want:
+            wrong.append((cs, lists, sorted(n.alone), got, want))
+violated = bool(wrong)
+detail = f'(choice set, nests, alone, check_intersection()[0], expected): {wrong}'
+''')
 
 UNION_OK = 'c12c_set_eq(c12c_union(c12c_nest_members(self.tuple_of_nests), self.alone), c12c_members(self.choice_set))'
 CS = 'self.choice_set'
@@ -51,13 +109,76 @@ contract(Q + 'Nests.check_union', 'C12', modifies=[], returns='tuple[bool, str]'
                   'accepted_implies_inside': f'implies(result[0], {INSIDE})',
                   'accepted_implies_alone_inside': f'implies(result[0], {ALONE_INSIDE})',
                   'refused_implies_fault': f'implies(not result[0], not (({COVERED}) and ({INSIDE}) and ({ALONE_INSIDE})))',
-                  })
+                  },
+         replay=REPLAY_NESTS + '''
+wrong = []
+def probe(n, what):
+    lists = [list(x.list_of_alternatives) for x in n.tuple_of_nests]
+    got, want = n.check_union()[0], union_ok(n.choice_set, lists, n.alone)
+    if got != want:
+        wrong.append((what, list(n.choice_set), lists, sorted(n.alone), got, want))
+for mk in (nl, cnl):
+    for cs, lists in SHAPES:
+        try:
+            n = mk(cs, lists)
+        except BiogemeError:
+            continue
+        probe(n, 'as built')
+        n.choice_set = list(cs) + [99]; probe(n, 'alternative 99 added to the choice set only')
+        n.choice_set = list(cs)
+        if n.tuple_of_nests:
+            n.tuple_of_nests[0].list_of_alternatives = list(n.tuple_of_nests[0].list_of_alternatives) + [77]
+            probe(n, 'alternative 77 added to the first nest only')
+            n.tuple_of_nests[0].list_of_alternatives = n.tuple_of_nests[0].list_of_alternatives[:-1]
+        if n.alone:
+            n.alone = set(); probe(n, 'alone emptied')
+        else:
+            n.alone = {55}; probe(n, 'alone holds 55, which is outside the choice set')
+violated = bool(wrong)
+detail = f'(case, choice set, nests, alone, check_union()[0], expected): {wrong[:6]}'
+''')
 
 contract(Q + 'NestsForNestedLogit.check_partition', 'C12', modifies=[], returns='tuple[bool, str]',
          ensures={'accepted_iff_union_and_intersection_checks_pass': f'result[0] == (({UNION_OK}) and not ({FAULT}))',
                   'accepted_iff_partition_elementwise':
-                      f'result[0] == (({COVERED}) and ({INSIDE}) and ({ALONE_INSIDE}) and not ({FAULT}))'})
+                      f'result[0] == (({COVERED}) and ({INSIDE}) and ({ALONE_INSIDE}) and not ({FAULT}))'},
+         replay=REPLAY_NESTS + '''
+wrong = []
+for cs, lists in SHAPES:
+    try:
+        n = nl(cs, lists)
+    except BiogemeError:
+        continue
+    for extra in (None, 99):
+        if extra is not None:
+            n.choice_set = list(cs) + [extra]
+        got = n.check_partition()[0]
+        want = union_ok(n.choice_set, lists, n.alone) and not share(lists, n.alone)
+        if got != want:
+            wrong.append((list(n.choice_set), lists, sorted(n.alone), got, want))
+violated = bool(wrong)
+detail = f'(choice set, nests, alone, check_partition()[0], expected): {wrong[:6]}'
+''')
 
+REPLAY_INIT = REPLAY_NESTS + '''
+wrong = []
+for mk in (nl, cnl):
+    for cs, lists in SHAPES + [([1, 2], [[1], [2, 3]]), ([1, 2], [[1, 2], [1, 2], [4]]), ([1, 2, 3], [[9], [1, 2, 3]]), ([], [[1]])]:
+        mev = set().union(*[set(l) for l in lists])
+        want = 'BiogemeError' if mev - set(cs) else 'built'
+        try:
+            n = mk(cs, lists); got = 'built'
+        except BiogemeError:
+            got = 'BiogemeError'
+        except Exception as e:
+            got = type(e).__name__
+        ok = got == want and (got != 'built' or (n.mev_alternatives == mev and n.alone == set(cs) - mev
+                                                 and all(x.name is not None for x in n.tuple_of_nests)))
+        if not ok:
+            wrong.append((mk.__name__, cs, lists, got, want))
+violated = bool(wrong)
+detail = f'(kind, choice set, nests, outcome, expected): {wrong[:6]}'
+'''
 NT = {'choice_set': 'list[int]', 'tuple_of_nests': 'list[OneNestForNestedLogit]'}
 P_MEV = 'c12c_nest_members(tuple_of_nests)'
 P_CS = 'c12c_members(choice_set)'
@@ -70,7 +191,8 @@ contract(Q + 'Nests.__init__', 'C12', types=NT, exact_self=False,
                   'alone_is_the_rest': f'c12c_obj_is(self.alone, c12c_minus({P_CS}, {P_MEV}))',
                   'every_nest_named': 'forall(lambda q: tuple_of_nests[q].name is not None, 0, len(tuple_of_nests))'},
          invariants={1: {'clauses': {'named_so_far': 'forall(lambda q: self.tuple_of_nests[q].name is not None, 0, _k)',
-                                     'stored': 'self.tuple_of_nests is tuple_of_nests and self.choice_set is choice_set'}}})
+                                     'stored': 'self.tuple_of_nests is tuple_of_nests and self.choice_set is choice_set'}}},
+         replay=REPLAY_INIT)
 
 _INIT_ENS = {'accepted_only_if_nests_within_choice_set': f'c12c_subset({P_MEV}, {P_CS})',
              'stored': 'self.choice_set is choice_set and self.tuple_of_nests is tuple_of_nests',
@@ -80,12 +202,4 @@ for _cls, _one in (('NestsForNestedLogit', 'OneNestForNestedLogit'), ('NestsForC
     contract(Q + _cls + '.__init__', 'C12', types={'choice_set': 'list[int]', 'tuple_of_nests': f'list[{_one}]'},
              modifies=['self.choice_set', 'self.tuple_of_nests', 'self.mev_alternatives', 'self.alone', '*.name'],
              raises={'BiogemeError': 'not c12c_inside(choice_set, tuple_of_nests)'},
-             ensures=_INIT_ENS)
-
-field_type('OneNestForCrossNestedLogit', 'dict_of_alpha', 'dict[int, Expression]')
-field_type('NestsForCrossNestedLogit', 'tuple_of_nests', 'list[OneNestForCrossNestedLogit]')
-contract('biogeme.expressions.base_expressions.Expression.get_value', 'C12', verify=False, pure=True, returns='float',
-         ensures={'t': 'True'}, label='Expression.get_value(abstract)',
-         note='value of a constant sub-formula (deterministic, no side effect); used by the cross-nested validity check only to word a message')
-contract(Q + 'NestsForCrossNestedLogit.check_validity', 'C12', modifies=[], returns='tuple[bool, str]', may_raise=['KeyError'],
-         ensures={'accepted_iff_union_check_passes': f'result[0] == {UNION_OK}'})
+             ensures=_INIT_ENS, replay=REPLAY_INIT)
